@@ -479,11 +479,86 @@ def r7_bare_global_names_cannot_be_captured_by_locals(ctx):
         ctx.ob("C10.R7", f"{GEN}::__var_direct_link_to_py_ast::bare `{name}` only when no local has that Python name", GEN, nd.line, ok,
                "" if ok else f"a Var of the current namespace is emitted as the bare global `{name}` without consulting the symbol table, while fn parameters keep their source names: (defmacro m [] `(helper 1)) (defn g [helper] (m)) calls the argument",
                witness="(def x 1) ((fn [x] my.ns/x) 2) must be 1")
+    # ... and the same for a Var of *another* namespace, which is reached through the bare module
+    # global that holds that namespace's module: `<global>.<name>`
+    attr = [nd for nd in g.nodes if nd.kind == "stmt" and isinstance(nd.ast, ast.Return) and nd.ast.value is not None
+            and any(isinstance(c, ast.Call) and P.un(c.func) == "_load_attr" and c.args and isinstance(c.args[0], ast.JoinedStr) for c in ast.walk(nd.ast.value))]
+    if not attr:
+        raise AnalysisError("anchor vanished: the `<module global>.<name>` return of __var_direct_link_to_py_ast")
+    for nd in attr:
+        call = next(c for c in ast.walk(nd.ast.value) if isinstance(c, ast.Call) and P.un(c.func) == "_load_attr")
+        first = next((v.value for v in call.args[0].values if isinstance(v, ast.FormattedValue)), None)
+        name = P.un(first) if first is not None else "?"
+
+        def guard2(a, b, lab, name=name):
+            if a.kind != "test" or lab is not False:
+                return False
+            return any(isinstance(c, ast.Call) and "symbol_table" in P.un(c.func) and any(P.un(x) == name for x in c.args) for c in ast.walk(a.ast))
+        ok = g.edge_dominated(nd, guard2) or always_fresh
+        ctx.ob("C10.R7", f"{GEN}::__var_direct_link_to_py_ast::`{name}.<var>` only when no local has the Python name of that module global", GEN, nd.line, ok,
+               "" if ok else f"a Var of another namespace is emitted as `{name}.<var>` without consulting the symbol table: a parameter or local whose munged name equals the module global of that namespace captures every reference into it",
+               witness="((fn [basilisp-core] (str \"a\" basilisp-core)) \"zz\") => AttributeError under direct linking")
+
+
+@rule("C10.R11", floor=2)
+def r11_refer_filters_only_filter(ctx):
+    """refer / :refer-basilisp build the referred names from the interns of the other namespace
+    through three stages: :only / :refer and :exclude *remove* entries, :rename *re-keys* them.  The
+    re-keying stage has to carry every entry along (under its new name if it has one, else its own):
+    an accumulating function that returns the accumulator unchanged for an entry drops that name,
+    so a bare symbol that should denote the referred Var no longer resolves."""
+    from .. import lispread as L
+    defs = L.top_defs(ctx.lisp(CORE))
+    rf = defs.get("refer-filtered-interns")
+    if rf is None:
+        raise AnalysisError("anchor vanished: core.lpy::refer-filtered-interns")
+    stages = [f for f in L.walk(rf) if L.head(f) in ("cond->>", "cond->")]
+    if not stages:
+        raise AnalysisError("refer-filtered-interns is no longer a cond->> pipeline over the interns")
+    st = stages[0]
+    pairs = list(zip(st.items[2::2], st.items[3::2]))
+    seen = 0
+    for test, step in pairs:
+        which = next((n for n in ("only", "exclude", "rename") if any(isinstance(x, L.Sym) and x.val == n for x in L.walk(test))), None)
+        if which is None:
+            continue
+        seen += 1
+        if which in ("only", "exclude"):
+            ok = L.head(step) in ("filter", "remove", "filterv", "keep")
+            ctx.ob("C10.R11", f"{CORE}::refer-filtered-interns::the :{which} stage filters", CORE, step.line, ok, "" if ok else f"the :{which} stage is `{step.text()[:60]}`, not a filter over the entries")
+            continue
+        # rename: a map / reduce over all entries; the reducing fn must add an entry on every path
+        fns = [f for f in L.walk(step) if L.head(f) in ("fn", "fn*") or isinstance(f, L.FnLit)]
+        ok, why = True, ""
+        if L.head(step) in ("reduce", "reduce*", "reduce-kv") and fns:
+            fn = fns[0]
+            params = next((x for x in fn.items if isinstance(x, L.Vec)), None)
+            acc = params.items[0].val if params is not None and params.items and isinstance(params.items[0], L.Sym) else None
+            for i in L.walk(fn):
+                if L.head(i) in ("if", "if-not", "when", "when-not", "if-let", "when-let", "cond") and acc is not None:
+                    branches = i.items[2:] if L.head(i) != "cond" else i.items[2::2]
+                    if any(isinstance(b, L.Sym) and b.val == acc for b in branches) or (L.head(i) in ("when", "when-not", "when-let")):
+                        ok, why = False, f"`{i.text()[:70]}` hands the accumulator back unchanged for some entries: a name that is not renamed is not referred at all"
+        elif L.head(step) in ("map", "mapv", "into", "update-keys", "set/rename-keys"):
+            ok = True
+        elif L.head(step) in ("filter", "keep", "select-keys", "remove"):
+            ok, why = False, "the :rename stage filters the entries instead of re-keying them"
+        else:
+            raise AnalysisError(f"refer-filtered-interns: unrecognised :rename stage `{step.text()[:60]}`")
+        ctx.ob("C10.R11", f"{CORE}::refer-filtered-interns::the :rename stage keeps every entry", CORE, step.line, ok, why,
+               witness="(ns x (:refer-basilisp :rename {map core-map})) str => unable to resolve symbol")
+    if seen < 3:
+        raise AnalysisError(f"refer-filtered-interns: only {seen} of the three filter stages found")
 
 
 _GEN_NST ="        with old_st.new_frame(name, is_context_boundary) as st:\n            self._st.append(st)\n            try:\n                yield st\n            finally:\n                self._st.pop()\n"
 
 SELFTEST = [
+    {"name": "module global of another namespace emitted without asking the symbol table (the repaired defect)", "file": GEN, "expect": "C10.R7",
+     "old": "            if ctx.symbol_table.is_local_python_name(aliased_ns_name):\n                return None\n", "new": ""},
+    {"name": "refer :rename drops what is not renamed (the repaired defect)", "file": CORE, "expect": "C10.R11",
+     "old": "                               (assoc m\n                                      (get rename (key entry) (key entry))\n                                      (val entry)))\n",
+     "new": "                               (if (rename (key entry))\n                                 (assoc m (rename (key entry)) (val entry))\n                                 m))\n"},
     {"name": "intern binds the fresh Var (the repaired defect)", "file": CORE, "expect": "C10.R8",
      "old": "         v  (->> (basilisp.lang.runtime/Var ns name ** :meta {:ns ns :name name})\n                 (.intern ns name))]\n     (.bind-root v val)\n     v)))",
      "new": "         v  (basilisp.lang.runtime/Var ns name ** :meta {:ns ns :name name})]\n     (.bind-root v val)\n     (.intern ns name v))))"},
